@@ -200,3 +200,19 @@ func vh_duration_decode() {
 	vAssert(err == nil && back == Duration{Months: mo, Days: d, Nanoseconds: ns}, "C12/duration/decode")
 	vObserve("ns", back.Nanoseconds)
 }
+
+// date into a *string destination ("2006-01-02"): the days around the epoch and a few far ones, each a
+// concrete day count (the text formatting is run concretely), the 4 bytes as the specification writes them
+// (day 0 of the encoding is 2^31 days before 1970-01-01).
+func vh_date_decode_string() {
+	type sample struct {
+		off  int64 // days relative to 1970-01-01
+		text string
+	}
+	samples := []sample{{-1, "1969-12-31"}, {0, "1970-01-01"}, {1, "1970-01-02"}, {-365, "1969-01-01"}, {-25567, "1900-01-01"}, {19358, "2023-01-01"}, {-719162, "0001-01-01"}}
+	s := samples[vChoose("day", len(samples))]
+	var got string
+	err := Unmarshal(vNT(TypeDate), refBE((1<<31)+s.off, 4), &got)
+	vAssert(err == nil && got == s.text, "C12/date/decode-into-string")
+	vObserve("got", got)
+}
